@@ -149,6 +149,45 @@ def run(chk):
             for method in ('GET', 'HEAD'):
                 recs.append(record(hp, data, float(fixed), h, rng.choice(['absent', 'absent', 'older']), method, 2 ** 20))
                 chk.count(1, ('replaced', step, h, method))
+    # the server's local time zone observes daylight saving: dates are HTTP dates (GMT) whatever the zone; files with a winter
+    # and with a summer modification time, conditional requests at / around that time
+    import time as _time
+    saved_tz = os.environ.get('TZ')
+    try:
+        for tz in ('CET-1CEST,M3.5.0,M10.5.0/3', 'EST5EDT,M3.2.0,M11.1.0', 'NZST-12NZDT,M9.5.0,M4.1.0/3'):
+            os.environ['TZ'] = tz
+            _time.tzset()
+            for label, ts in (('winter', 1705320000), ('summer', 1721044800), ('autumn', 1729990800)):      # 2024-01-15, 2024-07-15, 2024-10-27 01:00 UTC
+                fp = os.path.join(tmp, 'dst-%s.bin' % label)
+                data = bytes(range(40))
+                with open(fp, 'wb') as fh:
+                    fh.write(data)
+                os.utime(fp, (ts, ts))
+                for ims in ('older', 'equal', 'newer', 'absent'):
+                    for method in ('GET', 'HEAD'):
+                        recs.append(record(fp, data, float(ts), rng.choice([None, 'bytes=0-9']), ims, method, 2 ** 20))
+                        chk.count(1, ('dst', tz, label, ims, method))
+    finally:
+        if saved_tz is None:
+            os.environ.pop('TZ', None)
+        else:
+            os.environ['TZ'] = saved_tz
+        _time.tzset()
+    # a file published through a symbolic link (static/app.js -> ../build/app.<hash>.js): length, ranges and validators are
+    # those of the content that is delivered
+    target = os.path.join(tmp, 'build-0123456789abcdef0123456789abcdef-app.bin')
+    tdata = bytes((i * 7) % 251 for i in range(5000))
+    with open(target, 'wb') as fh:
+        fh.write(tdata)
+    link = os.path.join(tmp, 'app.bin')
+    os.symlink(target, link)
+    old = int(os.stat(target).st_mtime) - 5000
+    os.utime(link, (old, old), follow_symlinks=False)          # the link itself is older than the content
+    for h in [None, 'bytes=0-', 'bytes=100-199', 'bytes=-10', 'bytes=4990-', 'bytes=0-4999', 'bytes=27-', 'bytes=5000-']:
+        for ims in ('absent', 'older', 'equal', 'newer'):
+            for method in ('GET', 'HEAD'):
+                recs.append(record(link, tdata, os.stat(target).st_mtime, h, ims, method, 2 ** 20))
+                chk.count(1, ('symlink', h, ims, method))
     # _file_iter_range with small buffers (the streaming loop itself)
     for _ in range(3000 if thorough else 500):
         L = rng.choice([0, 1, 2, 5, 9, 17, 64])
